@@ -7,9 +7,20 @@
                                     good_fresh, set_good, reload_good, getCandidates_good, run_good)
   set_in_place_keeps_other_slots    an update changes bytes of its own 64-byte slot only, and no other map entry
   set_toolarge                      RLP longer than 56 bytes (total ≥ 2^264): Set panics
-  decode_never_panics_partial       ARBITRARY buffers: Decode does not panic iff every slot head is HeadOk and len(buf) ≥ length
-                                    (exactness by the four `decode_*_panics` witnesses); an RLP error only makes Decode FAIL,
-                                    which load ignores
+  decode_never_panics_partial       ARBITRARY buffers: Decode does not panic IF every slot head is HeadOk and len(buf) ≥ length.
+                                    ONE DIRECTION ONLY — the guard is sufficient, NOT exact: with a bad head Decode CAN panic
+                                    (four `decode_*_panics` evaluations on literals) but need not: slot 0 HeadOk with garbage
+                                    RLP, slot 1 all-zero evaluates to `failed map=[]`, because the RLP error of slot 0 returns
+                                    first (`decodeLoop | none => .err m`; beansdb.go:296-298).  The exact form would be
+                                    "panic ⇔ blen < length ∨ ∃ k, ¬HeadOk k ∧ every earlier slot HeadOk and decodable" (not proved).
+                                    An RLP error only makes Decode FAIL, which load ignores
+  loadFile_flushFile / flush_load_good / decode_after_sets_file
+                                    the bridge from `reload` (= `loadBody ∘ encodeBody`, which SKIPS the 14-byte contextHead,
+                                    FileLen uint32, the two file reads and the loaderr branch) to the real path
+                                    `loadFile ∘ flushFile`: equal whenever the body is shorter than 2^32 (true under `Good`)
+  getV_put is about the SPEC function `put` alone (true for any Go code); set_toolarge is the first `if` of the model's `set`;
+  the four `decode_*_panics` are `decide` on literals: model evaluations, tied to the code only through the cc op classes
+  (toolarge, zero-slot, len-past-slot, pos-wrong, short-buf).
   seed_noHead_refuted / seed_lateLen_refuted   the two seeded regressions: 100 → 300 leaves Len = 23 over 25 bytes; the file
                                     opens with an EMPTY list and no error (stale_open_empty), the current code lists 300
 -/
@@ -521,6 +532,70 @@ theorem decode_after_sets (ops : List Op) (hf : OpsFit ops) (hn : 64 * ops.lengt
   obtain ⟨c', h2, g'⟩ := reload_good g
   exact ⟨c, c', h1, getCandidates_good g, h2, getCandidates_good g'⟩
 
+/-! ### the bridge: `reload` is what `Flush` + `NewRunContext` compute (`loadFile ∘ flushFile`)
+
+  `reload c = loadBody (encodeBody c)` skips the file level: the 14-byte contextHead, FileLen as uint32, the two
+  `file.Read`s of `loadFile` and its loaderr branch.  The bridge below closes that gap; under `Good` every `.restart`
+  step of `run` (which calls `reload`) is therefore literally `loadFile (flushFile c ts)` for every time stamp. -/
+
+theorem encodeBody_len_pos (c : Cache) : 8 ≤ (encodeBody c).length := by
+  unfold encodeBody
+  simp only [List.length_append, le32_length]; omega
+
+/-- **loadFile_flushFile**: reading back the file `Flush` writes is `reload`, whenever the body length fits uint32 -/
+theorem loadFile_flushFile (c : Cache) (ts : Nat) (h : (encodeBody c).length < 4294967296) :
+    loadFile (flushFile c ts) = reload c := by
+  have h8 := encodeBody_len_pos c
+  have hu : u32 (encodeBody c).length = (encodeBody c).length := by unfold u32; omega
+  unfold loadFile flushFile reload
+  rw [hu]
+  generalize hb : encodeBody c = body at *
+  have hl : (le32 body.length ++ le32 1 ++ le32 (u32 ts) ++ [0, 0]).length = 14 := by
+    simp [le32_length]
+  have hne : (le32 body.length ++ le32 1 ++ le32 (u32 ts) ++ [0, 0] ++ body).isEmpty = false := by
+    cases body with
+    | nil => simp at h8
+    | cons x r => simp [le32]
+  rw [hne]
+  simp only [Bool.false_eq_true, ↓reduceIte]
+  rw [List.take_left' hl, List.drop_left' hl]
+  have hlen : (le32 body.length ++ le32 1 ++ le32 (u32 ts) ++ [0, 0] ++ body).length = 14 + body.length := by
+    rw [List.length_append, hl]
+  have hz : 14 - (14 + body.length) = 0 := by omega
+  rw [hlen, hz]
+  simp only [List.replicate_zero, List.append_nil]
+  have hr : rd32 (le32 body.length ++ le32 1 ++ le32 (u32 ts) ++ [0, 0]) = body.length := by
+    have := rd32_le32 body.length h (le32 1 ++ le32 (u32 ts) ++ [0, 0])
+    simpa [List.append_assoc] using this
+  rw [hr]
+  have hbe : body.isEmpty = false := by
+    cases body with
+    | nil => simp at h8
+    | cons x r => rfl
+  simp [hbe]
+
+theorem encodeBody_small {c : Cache} {m : Content} (g : Good c m) : (encodeBody c).length < 4294967296 := by
+  have hcur := g.cur; have hlen := g.len; have hle := g.le; have hsm := g.small
+  have hp : persist c = c.buf.take c.cur := persist_eq (by omega) (by omega)
+  have hpl : (c.buf.take c.cur).length = c.cur := by rw [List.length_take]; omega
+  unfold encodeBody
+  rw [hp]
+  simp only [List.length_append, le32_length, hpl]; omega
+
+/-- **flush_load_good**: `reload_good` for the real path — `Flush` (any time stamp), then `NewRunContext`'s load -/
+theorem flush_load_good {c : Cache} {m : Content} (g : Good c m) (ts : Nat) :
+    ∃ c', loadFile (flushFile c ts) = .ok c' ∧ Good c' m := by
+  rw [loadFile_flushFile c ts (encodeBody_small g)]
+  exact reload_good g
+
+/-- **decode_after_sets_file**: `decode_after_sets` with the final restart through the FILE (`loadFile ∘ flushFile`) -/
+theorem decode_after_sets_file (ops : List Op) (hf : OpsFit ops) (hn : 64 * ops.length + 128 ≤ 4294967296) (ts : Nat) :
+    ∃ c c', run fresh ops = .ok c ∧ getCandidates c = .ok (content [] ops)
+      ∧ loadFile (flushFile c ts) = .ok c' ∧ getCandidates c' = .ok (content [] ops) := by
+  obtain ⟨c, h1, g⟩ := run_good ops fresh [] good_fresh hf (by simpa using hn)
+  obtain ⟨c', h2, g'⟩ := flush_load_good g ts
+  exact ⟨c, c', h1, getCandidates_good g, h2, getCandidates_good g'⟩
+
 
 /-! ### an update in place touches its own slot only -/
 
@@ -593,8 +668,10 @@ theorem decodeLoop_no_panic {arr : List UInt8} : ∀ (rem index : Nat) (acc : Po
         exact decodeLoop_no_panic rem (index + 1) _ (fun k x y => h k (by omega) (by omega)) (by omega) s
 
 /-- **decode_never_panics_partial**: on ANY buffer whose slot heads are `HeadOk` (and `length ≤ len(buf) ≤ cap(buf)`),
-    whatever the payload bytes are, `Decode` returns (`done` or `failed`) and does not panic.  The guard is exact: see
-    `decode_zero_slot_panics`, `decode_len_overrun_panics`, `decode_pos_wrong_panics`, `decode_short_buf_panics`. -/
+    whatever the payload bytes are, `Decode` returns (`done` or `failed`) and does not panic.  The guard is SUFFICIENT, not
+    exact (the converse fails: a non-HeadOk slot behind a slot whose RLP does not decode is never reached — `failed`, no
+    panic).  That a bad head CAN panic: `decode_zero_slot_panics`, `decode_len_overrun_panics`, `decode_pos_wrong_panics`,
+    `decode_short_buf_panics` (evaluations on four literal buffers). -/
 theorem decode_never_panics_partial (c : Cache) (arr : List UInt8) (blen length : Nat) (h1 : length ≤ blen)
     (h2 : blen ≤ arr.length) (hh : ∀ k, k < length / 64 → HeadOk arr k) :
     ∀ s, LemoModel.CandCache.decode c arr blen length ≠ .panic s := by
@@ -670,6 +747,19 @@ theorem seedA_persist : persist (getOk (setSeed .noHead (getOk (LemoModel.CandCa
 
 set_option maxRecDepth 100000 in
 theorem seedB_persist : persist (getOk (setSeed .lateLen (getOk (LemoModel.CandCache.set fresh wA 100)) wA 300)) = stale64 := by
+  simp only [LemoModel.CandCache.set, setSeed, enc100, enc300]
+  decide
+
+/-! the hand-typed `staleFile` IS the file `Flush` (time stamp 0) writes from the seeded cache (links conjunct 1 and
+    conjunct 2 of the two seed refutations; `setSeed` itself is never driven by the harness: it matches the seeded
+    patches C08i / C10i by reading) -/
+set_option maxRecDepth 100000 in
+theorem seedA_file : flushFile (getOk (setSeed .noHead (getOk (LemoModel.CandCache.set fresh wA 100)) wA 300)) 0 = staleFile := by
+  simp only [LemoModel.CandCache.set, setSeed, enc100, enc300]
+  decide
+
+set_option maxRecDepth 100000 in
+theorem seedB_file : flushFile (getOk (setSeed .lateLen (getOk (LemoModel.CandCache.set fresh wA 100)) wA 300)) 0 = staleFile := by
   simp only [LemoModel.CandCache.set, setSeed, enc100, enc300]
   decide
 
